@@ -182,9 +182,18 @@ func (am *assetMgr) loadRep(logger *slog.Logger, assetPath string, as *m.Adaptat
 	}
 	if !am.writeRepData {
 		ok, err := rp.loadFromJSON(logger, am.vodFS, am.repDataDir, assetPath)
-		if ok {
+		if ok && err == nil {
 			logger.Debug("Loaded representation data from JSON")
-			return &rp, err
+			return &rp, nil
+		}
+		if err != nil {
+			// A damaged metadata file must not change what is served: fall back to scanning the segments.
+			logger.Warn("Cannot use representation data file. Scanning segments instead", "err", err.Error())
+			rp = RepData{ID: rep.Id,
+				ContentType:  string(as.ContentType),
+				Codecs:       as.Codecs,
+				MpdTimescale: 1,
+			}
 		}
 	}
 	logger.Debug("Loading full representation by reading all segments")
@@ -344,6 +353,9 @@ func (rp *RepData) loadFromJSON(logger *slog.Logger, vodFS fs.FS, repDataDir, as
 	}
 	if err := json.Unmarshal(data, &rp); err != nil {
 		return true, err
+	}
+	if len(rp.Segments) == 0 {
+		return true, fmt.Errorf("no segments in representation data")
 	}
 	err = rp.addRegExpAndInit(logger, vodFS, assetPath)
 	if err != nil {
